@@ -439,6 +439,10 @@ var commentKinds = []struct{ name, class, text string }{
 	{"line", "line", "//%s\n"},
 	{"ownline", "line", "\n//%s\n"},
 	{"ownblock", "block", "\n/*%s*/\n"},
+	// two comment groups at one gap, separated by a blank line (the second group is a
+	// "leftover" for the attachment pass when the gap follows the last child of a container)
+	{"groups-line", "line", "\n//%[1]s\n\n//%[1]sB\n"},
+	{"groups-block", "block", "\n/*%[1]s*/\n\n/*%[1]sB*/\n"},
 	{"doc", "docline", "///%s\n"},
 	{"docblock", "docblock", "/**%s*/"},
 }
@@ -495,7 +499,7 @@ func runC39(env *mc.Env) {
 	}
 
 	// (b) a comment at every token gap of the (smaller) corpus, every spelling
-	nKinds := mc.Pick(env, 4, len(commentKinds))
+	nKinds := mc.Pick(env, 6, len(commentKinds))
 	var accepted []srcgen.Program
 	single := func(p srcgen.Program, prog *ast.Program, g gap, k int, marker string) c39Job {
 		ck := commentKinds[k]
